@@ -220,6 +220,15 @@ class GhostFile:
         """the bytes of the file as an opaque token (what is done with them is the business of a contract of the consumer)"""
         return ("BYTES", self.name)
 
+    def truncate(self, size=None):
+        """file.truncate(size): the file's size becomes `size` (default: the current position); the position does not move"""
+        size = self.pos if size is None else size
+        fs = getattr(self, "fs", None)
+        if fs is not None:
+            fs.log.append(("truncate", self.name, size))
+            fs.size[self.name] = size
+        return size
+
     def seek(self, pos, whence=0):
         if whence != 0:
             raise Unsupported("seek with whence != 0")
@@ -251,6 +260,7 @@ def _open(I, a, k):
     mode = a[1] if len(a) > 1 else k.get("mode", "r")
     gf = GhostFile(f.key)
     gf.mode = mode
+    gf.fs = f.fs
     fs = f.fs
     if "w" in mode:
         fs.log.append(("open_w", f.key, None))
